@@ -10,6 +10,7 @@ Next == l <= Len(T) /\ l' = l + 1 /\ UNCHANGED tid
 Spec == Init /\ [][Next]_vars
 Verdict ==
   IF l > Len(T) THEN PrintT(<<"ACCEPT", tid>>)
+  ELSE IF "raised" \in DOMAIN R THEN PrintT(<<"REJECT", tid, l, R.rep, "construction-or-conversion-raised">>)
   ELSE IF EventClause(R) # "none" THEN PrintT(<<"REJECT", tid, l, R.rep, EventClause(R)>>)
   ELSE TRUE
 =============================================================================
